@@ -19,6 +19,8 @@ package main
 //        holdmu / freemu  the harness itself takes / releases the vigil's condition mutex; `cease` and `wait` issued in
 //                       between line up on it (`queued`) and get it in that order when it is released (Go hands a
 //                       starving mutex over FIFO) — this reaches the window between a waiter's check and its Lock
+//        destroysave    Destroy() of a swamp instance while a Save (holding its vigil) stands right before its
+//                       `s.mu.RLock()`: reply `mu=<state of s.mu when the drain begins> done|stuck`
 //        closefail      Close() of a swamp instance whose chronicler fails its final Close(); does a
 //                       WaitForGracefulClose caller get its answer?
 //        rpcs           a few real gateway RPCs (one of them panics and is recovered), then the
@@ -31,8 +33,8 @@ package main
 import (
 	"bufio"
 	"context"
-	"fmt"
 	"errors"
+	"fmt"
 	"math/rand"
 	"os"
 	"strconv"
@@ -191,25 +193,25 @@ func (w *c17World) afterBroadcast() string {
 		return ""
 	}
 	if vigil.VerifCount(w.v) <= 0 {
-		deadline := time.After(1500 * time.Millisecond) // returns as soon as they are back
+		deadline := time.After(HxScale(1500 * time.Millisecond)) // returns as soon as they are back
 		for _, x := range asleep {
 			select {
 			case <-x.done:
 				x.state = 'd'
 			case <-deadline:
 				w.timeout()
-				return " unwoken=" + strconv.Itoa(x.n)
+				return " timeout-unwoken=" + strconv.Itoa(x.n)
 			}
 		}
 		return ""
 	}
 	for range asleep {
-		if !w.waitEvent("checked", 1500*time.Millisecond) {
+		if !w.waitEvent("checked", HxScale(1500*time.Millisecond)) {
 			w.timeout()
-			return " unwoken"
+			return " timeout-unwoken"
 		}
 	}
-	if !w.waitLockFree(time.Second) {
+	if !w.waitLockFree(HxScale(time.Second)) {
 		w.timeout()
 		return " lock-stuck"
 	}
@@ -234,9 +236,9 @@ func (w *c17World) cleanup() {
 	go func() { w.ceaseWG.Wait(); close(fin) }()
 	select {
 	case <-fin:
-	case <-time.After(time.Second):
+	case <-time.After(HxScale(time.Second)):
 	}
-	deadline := time.Now().Add(400 * time.Millisecond)
+	deadline := time.Now().Add(HxScale(400 * time.Millisecond))
 	for {
 		for vigil.VerifCount(w.v) > 0 {
 			w.v.CeaseVigil()
@@ -284,10 +286,10 @@ func c17CloseFail() string {
 	go func() { inst.Close(); close(fin) }()
 	select {
 	case <-fin:
-	case <-time.After(3 * time.Second):
-		return "closefail close-hangs"
+	case <-time.After(HxScale(3 * time.Second)):
+		return "closefail close-hang"
 	}
-	ctx, cancel := context.WithTimeout(context.Background(), 500*time.Millisecond)
+	ctx, cancel := context.WithTimeout(context.Background(), HxScale(500*time.Millisecond))
 	defer cancel()
 	if err := inst.WaitForGracefulClose(ctx); err != nil {
 		// make sure the instance's goroutines end anyway
@@ -295,6 +297,99 @@ func c17CloseFail() string {
 		return "closefail stuck"
 	}
 	return "closefail returned"
+}
+
+// c17DestroySave: a Save in flight while the swamp is destroyed.  The writer holds its vigil and is stopped in
+// SaveFunction right before `s.mu.RLock()`; Destroy() runs up to the beginning of its drain; the state of
+// `s.mu` is read there (a destroyer that already holds the write lock can never get its drain: the writer
+// it waits for needs the read lock); then the writer is released and both must finish.
+func c17DestroySave(restore func()) string {
+	dir, err := os.MkdirTemp("", "hvc17-")
+	if err != nil {
+		return "destroysave setup-error"
+	}
+	defer os.RemoveAll(dir)
+	nm := name.New().Sanctuary("c17").Realm("destroysave").Swamp("one")
+	ch := chronicler.NewV2WithName(dir+"/swamp", 2, nm.Get())
+	ch.CreateDirectoryIfNotExists()
+	inst := swamp.New(nm, time.Hour, &swamp.FilesystemSettings{ChroniclerInterface: ch, WriteInterval: time.Hour},
+		func(*swamp.Event) {}, func(*swamp.Info) {}, func(name.Name) {}, metadata.NewNoop())
+	atMu, draining := make(chan struct{}, 1), make(chan struct{}, 1)
+	relW, relD := make(chan struct{}), make(chan struct{})
+	verifhook.SetHandler(func(hook string, args ...any) {
+		switch hook {
+		case "save.beforeMu":
+			if sw, ok := args[0].(swamp.Swamp); ok && sw == inst {
+				select {
+				case atMu <- struct{}{}:
+					<-relW
+				default:
+				}
+			}
+		case "destroy.draining":
+			if n, _ := args[0].(string); n == nm.Get() {
+				select {
+				case draining <- struct{}{}:
+					<-relD
+				default:
+				}
+			}
+		}
+	})
+	defer restore()
+	wDone, dDone := make(chan struct{}), make(chan struct{})
+	go func() {
+		defer close(wDone)
+		inst.BeginVigil()
+		defer inst.CeaseVigil()
+		t := inst.CreateTreasure("k")
+		if t == nil {
+			return
+		}
+		g := t.StartTreasureGuard(true)
+		t.SetContentString(g, "v")
+		_ = t.Save(g)
+		t.ReleaseTreasureGuard(g)
+	}()
+	release := func() {
+		select {
+		case <-relW:
+		default:
+			close(relW)
+		}
+		select {
+		case <-relD:
+		default:
+			close(relD)
+		}
+	}
+	select {
+	case <-atMu:
+	case <-time.After(HxScale(3 * time.Second)):
+		release()
+		return "destroysave timeout no-save"
+	}
+	go func() { defer close(dDone); inst.Destroy() }()
+	select {
+	case <-draining:
+	case <-time.After(HxScale(3 * time.Second)):
+		release()
+		return "destroysave timeout no-drain"
+	}
+	mu := "free"
+	if !swamp.VerifSwampMuFree(inst) {
+		mu = "held"
+	}
+	release()
+	res := "done"
+	for _, c := range []chan struct{}{wDone, dDone} {
+		select {
+		case <-c:
+		case <-time.After(HxScale(1500 * time.Millisecond)):
+			res = "stuck" // the watchdog OBSERVES non-termination; the goroutines are abandoned
+		}
+	}
+	return fmt.Sprintf("destroysave mu=%s %s", mu, res)
 }
 
 func init() {
@@ -311,7 +406,7 @@ func genC17(rng *rand.Rand, tier string, w *bufio.Writer) {
 	fmt.Fprintln(w, "case 0\nbegin\nwait\ncease\nbcast\nwgo 1\nexpect 1\nbcast\nexpect 1")
 	fmt.Fprintln(w, "case 1\nbegin\nbegin\nwait\ncease\nbcast\nwgo 1\nexpect 1\ncease\nbcast\nexpect 1")
 	fmt.Fprintln(w, "case 2\nbegin\nwait\nwgo 1\nexpect 1\ncease\nexpect 1\nbcast\nexpect 1\nwait\nexpect 2")
-	fmt.Fprintln(w, "case 3\nrpcs\nclosefail")
+	fmt.Fprintln(w, "case 3\nrpcs\nclosefail\ndestroysave")
 	// the last operation ends while a waiter is on its way to the mutex: with check and sleep decided under the mutex it returns
 	fmt.Fprintln(w, "case 4\nbegin\nholdmu\ncease\nwait\nfreemu\nbcast\nwgo 1\nexpect 1")
 	fmt.Fprintln(w, "case 5\nbegin\nbegin\nholdmu\nwait\ncease\nfreemu\nwgo 1\nbcast\ncease\nbcast\nexpect 1")
@@ -433,7 +528,7 @@ func runC17(in *bufio.Scanner, out *bufio.Writer) {
 				fmt.Fprintln(out, "skip")
 				break
 			}
-			time.Sleep(5 * time.Millisecond) // everybody in the line has starved for > 1 ms: FIFO hand-over
+			time.Sleep(HxScale(5 * time.Millisecond)) // everybody in the line has starved for > 1 ms: FIFO hand-over
 			rel := w.muRelease
 			w.muRelease = nil
 			w.mu.Lock()
@@ -448,7 +543,7 @@ func runC17(in *bufio.Scanner, out *bufio.Writer) {
 					continue
 				}
 				if who == "c" {
-					if w.waitEvent("dec", 3*time.Second) {
+					if w.waitEvent("dec", HxScale(3*time.Second)) {
 						w.heldC++
 						w.blockedC--
 						res = append(res, "c:held")
@@ -471,7 +566,7 @@ func runC17(in *bufio.Scanner, out *bufio.Writer) {
 					} else {
 						res = append(res, who+":"+ev)
 					}
-				case <-time.After(3 * time.Second):
+				case <-time.After(HxScale(3 * time.Second)):
 					w.timeout()
 					res = append(res, who+":timeout")
 				}
@@ -483,6 +578,8 @@ func runC17(in *bufio.Scanner, out *bufio.Writer) {
 			w.mu.Unlock()
 			w.muQueue = nil
 			fmt.Fprintf(out, "freemu %s %s\n", strings.Join(res, " "), w.state())
+		case "destroysave":
+			fmt.Fprintln(out, c17DestroySave(func() { verifhook.SetHandler(w.handler) }))
 		case "closefail":
 			fmt.Fprintln(out, c17CloseFail())
 		case "begin":
@@ -497,9 +594,9 @@ func runC17(in *bufio.Scanner, out *bufio.Writer) {
 			w.open--
 			w.ceaseWG.Add(1)
 			go func(v vigil.Vigil, cw *c17World) { defer cw.ceaseWG.Done(); v.CeaseVigil(); cw.ceaseFin.Add(1) }(w.v, w)
-			d := 3 * time.Second
+			d := HxScale(3 * time.Second)
 			if w.lockHeld() || w.muRelease != nil {
-				d = 100 * time.Millisecond // with the mutex around the decrement it cannot get there now
+				d = HxScale(100 * time.Millisecond) // with the mutex around the decrement it cannot get there now
 			}
 			res := "held"
 			if w.waitEvent("dec", d) {
@@ -537,7 +634,7 @@ func runC17(in *bufio.Scanner, out *bufio.Writer) {
 			before := w.ceaseFin.Load()
 			close(ch)
 			// the Broadcast has happened once that CeaseVigil call has returned
-			for dl := time.Now().Add(3 * time.Second); w.ceaseFin.Load() == before; {
+			for dl := time.Now().Add(HxScale(3 * time.Second)); w.ceaseFin.Load() == before; {
 				if time.Now().After(dl) {
 					w.timeout()
 					break
@@ -563,7 +660,7 @@ func runC17(in *bufio.Scanner, out *bufio.Writer) {
 				case <-x.done:
 					x.state = 'd'
 					fmt.Fprintf(out, "wait %d done %s\n", x.n, w.stateNoLock())
-				case <-time.After(100 * time.Millisecond):
+				case <-time.After(HxScale(100 * time.Millisecond)):
 					x.state = 'q'
 					w.muQueue = append(w.muQueue, strconv.Itoa(x.n))
 					fmt.Fprintf(out, "wait %d queued %s\n", x.n, w.stateNoLock())
@@ -571,7 +668,7 @@ func runC17(in *bufio.Scanner, out *bufio.Writer) {
 				break
 			}
 			res := ""
-			deadline := time.After(3 * time.Second)
+			deadline := time.After(HxScale(3 * time.Second))
 		loop:
 			for {
 				select {
@@ -610,7 +707,7 @@ func runC17(in *bufio.Scanner, out *bufio.Writer) {
 			res := "parked"
 			// CeaseVigil calls that were waiting for the mutex get it once the waiter sleeps
 			for w.blockedC > 0 {
-				if !w.waitEvent("dec", 3*time.Second) {
+				if !w.waitEvent("dec", HxScale(3*time.Second)) {
 					w.timeout()
 					res = "unexpected-timeout"
 					break
@@ -618,7 +715,7 @@ func runC17(in *bufio.Scanner, out *bufio.Writer) {
 				w.blockedC--
 				w.heldC++
 			}
-			if !w.waitLockFree(3 * time.Second) {
+			if !w.waitLockFree(HxScale(3 * time.Second)) {
 				w.timeout()
 				res = "unexpected-lock-stuck"
 			}
@@ -646,7 +743,7 @@ func runC17(in *bufio.Scanner, out *bufio.Writer) {
 						select {
 						case <-x.done:
 							x.state, res = 'd', "done"
-						case <-time.After(250 * time.Millisecond):
+						case <-time.After(HxScale(250 * time.Millisecond)):
 							res = "stuck"
 						}
 					}
@@ -749,7 +846,7 @@ func c17Rpcs() string {
 			select {
 			case <-fin:
 				dead = strconv.FormatInt(swamp.VerifVigilCount(inst), 10)
-			case <-time.After(3 * time.Second):
+			case <-time.After(HxScale(3 * time.Second)):
 				// the handler is stuck in Destroy's drain, waiting for its own vigil
 				dead = "hang"
 				inst.CeaseVigil()
